@@ -251,13 +251,13 @@ impl<S: Spec, C: flatcontainer::impls::index::IndexContainer<Idx<S>> + IdxModel<
                 Err(p) => return Err(format!("get({i}) panicked: {p}")),
             }
         }
-        for extra in 0..2 {
+        for pos in [n, n + 1, usize::MAX, usize::MAX - 1] {
             if guard(|| {
-                let _ = s.get(n + extra);
+                let _ = s.get(pos);
             })
             .is_ok()
             {
-                return Err(format!("get({}) on a stack of {n} values returned an item instead of panicking", n + extra));
+                return Err(format!("get({pos}) on a stack of {n} values returned an item instead of panicking"));
             }
         }
         // iteration: order, count, size hints, cloned iterator
